@@ -158,4 +158,11 @@ def close_cut(rng, sids=None):
         # a later open works as on a fresh object: connected again, receiving and transmitting
         s.append(("open",))
         s.append(("heal",))
+        if rng.random() < 0.6:
+            # ... and recovers from the new session's first fault as a fresh object does (nothing of the old session - a retry that was
+            # pending, a reset that was under way when close() came - may linger in the new one)
+            s.append(("adv", rng.choice([1, 8, 40])))
+            s.append(rng.choice([("peer", "reset"), ("peer", "eof"), ("peer", "badcrc"), ("reset",)]))
+            s.append(("adv", rng.choice([4, 24])))
+            s.append(("heal",))
     return s
